@@ -174,6 +174,45 @@ func closedForms(r *vlib.Run) {
 				return
 			}
 		}
+		// importance sampling towards focus points leaves the recursive tracer's estimate unchanged:
+		// other probabilities, a second focus point elsewhere in the room, or none at all
+		{
+			rt := &render3d.RecursiveRayTracer{Camera: cam, MaxDepth: d, NumSamples: samples}
+			desc := "no focus points"
+			switch rng.Intn(4) {
+			case 1:
+				p := []float64{0.1, 0.3, 0.8}[rng.Intn(3)]
+				rt.FocusPoints = []render3d.FocusPoint{&render3d.SphereFocusPoint{Center: lamp.Center, Radius: lamp.Radius}}
+				rt.FocusPointProbs = []float64{p}
+				desc = fmt.Sprintf("lamp focus point with probability %g", p)
+			case 2:
+				other := model3d.XYZ(rng.NormFloat64(), rng.NormFloat64(), 1+rng.Float64())
+				rt.FocusPoints = []render3d.FocusPoint{
+					&render3d.SphereFocusPoint{Center: other, Radius: 0.5 + rng.Float64()},
+					&render3d.SphereFocusPoint{Center: lamp.Center, Radius: lamp.Radius},
+				}
+				rt.FocusPointProbs = []float64{0.2, 0.4}
+				desc = fmt.Sprintf("focus points at %v (nothing there, p=0.2) and at the lamp (p=0.4)", other)
+			case 3:
+				rt.FocusPoints = []render3d.FocusPoint{
+					&render3d.SphereFocusPoint{Center: lamp.Center, Radius: lamp.Radius * 2},
+					&render3d.SphereFocusPoint{Center: lamp.Center, Radius: lamp.Radius},
+				}
+				rt.FocusPointProbs = []float64{0.3, 0.3}
+				desc = "two overlapping focus points at the lamp (radius x2 and x1, p=0.3 each)"
+			}
+			img := render3d.NewImage(size, size)
+			rt.Render(img, scene)
+			got := mean(img)
+			c.Count("closed.room.comparisons", 1)
+			c.Count("closed.room.comparisons_of_focus_point_settings", 1)
+			if !(math.Abs(got-want) <= 0.05*want) {
+				wit["focus"] = desc
+				c.Violation("render3d.RecursiveRayTracer.Render/focus-points-leave-the-estimate-unchanged",
+					fmt.Sprintf("mean brightness %.4f with %s; %.4f with the lamp as focus point at probability 0.5", got, desc, want), wit)
+				return
+			}
+		}
 		c.Nontrivial(fmt.Sprint("room", wit))
 	})
 
